@@ -74,7 +74,7 @@ def died(e):
 
 
 def run(ctx):
-    ctx.build()
+    ctx.build(need_cli=True)
     quick = ctx.tier == "quick"
     rng = random.Random(ctx.seed)
     jobs = []
@@ -235,15 +235,49 @@ def run(ctx):
         else:
             viol.append({"id": 0, "tags": ["C13"], "why": "abnormal termination at parenthesis depth 100000: %s" % st, "at": "scale", "i": 0, "obs": [], "bits": 0, "kind": "scale", "src": "nesting_100000"})
 
+    # (e) byte sequences through the real command: cmd/gosk reads and decodes the file itself (Shift_JIS), a path the worker's API
+    # runs never enter.  Sizes around and far beyond common buffer sizes, texts without any line end, bytes that are not text.
+    # Oracle: the process ends by itself within the budget, is not killed by a signal and prints no Go runtime panic / fatal error.
+    import os, re
+    cdir = os.path.join(ctx.scratch, "cli13")
+    os.makedirs(cdir, exist_ok=True)
+    prog = b"\tORG\t0x7c00\n" + b"\tMOV\tAL, 1\t; comment\n\tOUT\t0x60, AL\n" * 40 + b"\tHLT\n"
+    mib = 1 << 20
+    cli_inputs = [("empty", b""), ("only_cr", b"\r"), ("only_nul", b"\0" * 70000), ("no_eol_1MiB", b"A" * mib), ("comment_1MiB_no_eol", b";" + b"c" * mib),
+                  ("comment_line_70000", prog + b"; " + b"c" * 70000 + b"\n" + prog[14:]), ("cr_only_200KiB", (prog * 40).replace(b"\n", b"\r")),
+                  ("crlf_200KiB", (prog * 40).replace(b"\n", b"\r\n")), ("sjis_lead_at_eof", prog + b"; \x93\xfa\x96\x7b\x93"), ("sjis_trail_5c", prog + b"; \x95\x5c\x83\x5c\n"),
+                  ("bytes_80_ff", prog + bytes(range(0x80, 0x100)) * 300 + b"\n"), ("db_string_70000", b'\tDB\t"' + b"s" * 70000 + b'"\n'),
+                  ("blanks_1MiB", prog + b" " * mib + b"\n" + b"\tHLT\n"), ("utf8_bom", b"\xef\xbb\xbf" + prog), ("utf16_bom", b"\xff\xfe" + prog),
+                  ("random_64KiB", bytes(rng.randrange(256) for _ in range(65536 + 17)))]
+    ncli13 = 0
+    for name, raw in (cli_inputs if not quick else cli_inputs):
+        sp, dp = os.path.join(cdir, name + ".nas"), os.path.join(cdir, name + ".bin")
+        open(sp, "wb").write(raw)
+        r = ctx.run_cli([sp, dp], timeout=60 if quick else 300)
+        os.remove(sp)
+        text = (r["out"] + r["err"]).decode("latin-1")
+        why = None
+        if r["timeout"]:
+            why = "no termination within the budget"
+        elif r["rc"] < 0:
+            why = "killed by signal %d" % -r["rc"]
+        elif re.search(r"(?m)^(panic: |fatal error: |goroutine \d+ \[)", text):
+            why = "runtime panic: " + (re.search(r"(?m)^(panic: .*|fatal error: .*)", text) or re.search(r"goroutine.*", text)).group(0)[:160]
+        if why:
+            viol.append({"id": 0, "tags": ["C13"], "why": "command line, input %s (%d bytes): %s" % (name, len(raw), why), "at": "cli", "i": 0, "obs": [], "bits": 0,
+                         "kind": "cli", "src": "hex:" + raw[:2000].hex() if len(raw) <= 2000 else "%s: %d bytes, constructed in lib/props/c13.py (e)" % (name, len(raw))})
+        outcomes["cli_exit_%d" % r["rc"]] = outcomes.get("cli_exit_%d" % r["rc"], 0) + 1
+        ncli13 += 1
+
     class RR:
         cases = []
     known = []
-    cov = {"evaluations": len(jobs) + sum(len(v) for v in series.values()), "distinct_nontrivial": len({meta[j["id"]][1] for j in jobs}),
+    cov = {"evaluations": len(jobs) + sum(len(v) for v in series.values()) + ncli13, "command_line_inputs": ncli13, "distinct_nontrivial": len({meta[j["id"]][1] for j in jobs}),
            "outcomes": outcomes, "wall_s_running_inputs": round(t_run, 1), "scale_series_seconds": series,
            "inputs_by_kind": {k: sum(1 for m in meta.values() if m[0] == k) for k in ("matrix", "mutation", "mutation2", "equcycle", "odd", "bytes")},
            "states": sum(s["distinct"] for s in ctx.tlc_stats), "transitions": sum(s["generated"] for s in ctx.tlc_stats),
            "rule": "(a) every mnemonic of the grammar x operand-list shapes from Gen_Matrix.tla (0..3 operands of 16 kinds%s); (b) token-level mutations from Gen_Mut.tla (delete/insert/replace/duplicate/swap tokens, duplicate/delete lines, x %d positions x 34 replacement tokens incl. NUL, CR, braces, 26-digit numbers, empty strings) applied to %d seed programs%s; "
-                   "(c) seeded random byte strings and mixtures of valid fragments and bytes; (d) scale series (statements, nesting depth, term count, labels, DB list) at n = %s; distinct = distinct input texts; all are non-trivial in the sense that each is a different input" % (
+                   "(c) seeded random byte strings and mixtures of valid fragments and bytes; (d) scale series (statements, nesting depth, term count, labels, DB list) at n = %s; (e) 16 byte sequences through the real command (empty, no line end at 1 MiB, NUL bytes, CR-only / CRLF at 200 KiB, lines of 70 000 and 1 MiB, truncated Shift_JIS, bytes 0x80..0xff, BOMs, random 64 KiB); distinct = distinct input texts; all are non-trivial in the sense that each is a different input" % (
                        ", seeded sample of the 2/3-operand shapes" if quick else "", grain, len(seeds), "" if not quick else " (seeded sample of 500 per seed)", sizes),
            "samples": [meta[i][1][:200] for i in (1, len(jobs) // 2, len(jobs))], "exhaustive": False}
     for v in viol:
